@@ -69,7 +69,6 @@ func upgradeBody(r *Run) {
 	plan.Targets = rapid.SliceOfN(rapid.Custom(genUpgTarget), 1, 4).Draw(t, "targets")
 	stranger := DetKey("upgrade/stranger")
 	fired := false
-	deployed := map[string]int64{}
 	r.Tracef("engine=%s as %s; upgrade before block %d", eng.Name, prop, plan.At)
 	var violation func()
 	BlockHook = func(w *World, n int) {
@@ -143,14 +142,14 @@ func upgradeBody(r *Run) {
 					pre = r.Sweep()
 				}
 				before := allDigests(w)
+				depBefore := versionOf(w, d)
 				csBefore := w.BC.GetContractState(d.Hash)
 				aer := w.AddBlock([]*transaction.Transaction{w.Tx(script, signers, sysFee)}, 1)[0]
 				r.AddBlock(1, 1)
 				took := aer.VMState == vmstate.Halt
-				dep, known := deployed[key]
-				if !known {
-					dep = cur
-				}
+				// the version deployed right now, as the (old) executable reports it:
+				// the shadowed engine may have upgraded contracts itself
+				dep := depBefore
 				okVersion := newPrev <= dep && dep < newVer
 				expectOK := okSig && okVersion
 				if !okVersion {
@@ -209,7 +208,6 @@ func upgradeBody(r *Run) {
 				}
 				r.Changed()
 				r.Count("upgrades_accepted")
-				deployed[key] = newVer
 				if v := versionOf(w, d); v != newVer {
 					violation = func() {
 						r.Violation("C16/version-after-update", "", "%s: version() = %d after the update, expected %d", key, v, newVer)
